@@ -878,6 +878,21 @@ func untypedNullValues(withUnknown bool) []hazardValue {
 		cty.TupleVal([]cty.Value{cty.ObjectVal(map[string]cty.Value{"n": dn}), cty.ListVal([]cty.Value{cty.StringVal("l")})}),
 		cty.TupleVal([]cty.Value{dn, dn}),
 	}
+	// collections with a null member next to members that fill a placeholder nested in the
+	// element constraint (the decoded members then differ in type until they are unified)
+	{
+		ot := cty.Object(map[string]cty.Type{"a": cty.String, "b": cty.Number})
+		ov := cty.ObjectVal(map[string]cty.Value{"a": cty.StringVal("x"), "b": cty.NumberIntVal(1)})
+		tt := cty.Tuple([]cty.Type{cty.String, cty.Bool})
+		tv := cty.TupleVal([]cty.Value{cty.StringVal("x"), cty.True})
+		vs = append(vs,
+			cty.ListVal([]cty.Value{cty.NullVal(ot), ov}), cty.ListVal([]cty.Value{ov, cty.NullVal(ot)}), cty.SetVal([]cty.Value{cty.NullVal(ot), ov}),
+			cty.MapVal(map[string]cty.Value{"n": cty.NullVal(ot), "v": ov}),
+			cty.ListVal([]cty.Value{cty.NullVal(tt), tv}), cty.MapVal(map[string]cty.Value{"n": cty.NullVal(tt), "v": tv}),
+			cty.ListVal([]cty.Value{cty.NullVal(cty.List(cty.String)), cty.ListVal([]cty.Value{cty.StringVal("x")})}),
+			cty.TupleVal([]cty.Value{cty.ListVal([]cty.Value{cty.NullVal(ot), ov, ov})}),
+		)
+	}
 	optTy := cty.ObjectWithOptionalAttrs(map[string]cty.Type{"a": cty.String, "b": cty.Number}, []string{"b"})
 	vs = append(vs, cty.NullVal(optTy), cty.ListValEmpty(optTy), cty.MapValEmpty(optTy),
 		cty.TupleVal([]cty.Value{cty.NullVal(optTy), cty.StringVal("x")}), cty.ObjectVal(map[string]cty.Value{"o": cty.ListValEmpty(optTy)}), cty.NullVal(cty.List(optTy)))
